@@ -130,6 +130,12 @@ def gen(ctx, deep):
                         # reloading the MODEL invalidates the policy but must leave watcher and flags alone
                         jobs.append((cfg, [("loadmodel",), a]))
                         jobs.append((cfg, [("autonotify", False), ("loadmodel",), a]))
+                if is_async and kind in ("ex", "upd"):
+                    # the async enforcer also serves watchers whose operation-specific callbacks are plain functions
+                    scfg = ec.Config(shape, adapter=True, watcher=kind, initial=init, is_async=True)
+                    scfg.sync_callbacks = True
+                    for a in ops:
+                        jobs.append((scfg, [a]))
                 if not is_async or deep:
                     for a in ops:
                         for b in ops:
@@ -245,6 +251,7 @@ def replay(obj):
     case = obj["case"]
     c = case["config"]
     cfg = ec.Config(c["shape"], adapter=c["adapter"], watcher=c["watcher"], initial=c["initial"], is_async=c.get("async", False), late=c.get("late", False))
+    cfg.sync_callbacks = c.get("sync_callbacks", False)
     hist = [tuple(o) for o in case["history"]]
     r = common.Result()
     out = ec.run_history(cfg, hist, [], fresh_oracle=False)
